@@ -970,7 +970,7 @@ impl Check for C17 {
     }
     fn budget(&self, tier: Tier) -> Budget {
         match tier {
-            Tier::Quick => Budget { runs: 60_000, wall_s: 60 },
+            Tier::Quick => Budget { runs: 200_000, wall_s: 90 },
             Tier::Thorough => Budget { runs: 2_000_000, wall_s: 600 },
         }
     }
